@@ -16,6 +16,7 @@ from ..dataflow import DefUse, depends_on, origins
 from ..program import AnalysisError, dotted, src
 from .storelib import REFUSALS, STORE_MODULES, facts, node_desc
 from .common import loops_over, requires_edge
+from ..core import walk_local  # inline-aware
 
 STORE_WRITE_API = [
     ("xandikos.store.git.GitStore", "import_one"),
@@ -366,16 +367,22 @@ def h2(ctx):
                               "yield#%d hides %s" % (i, cf),
                               "listing skips the metadata file", "this listing branch can yield the metadata file %r as a member" % cf))
     # writers
-    for q in ("xandikos.store.git.GitStore.config.<locals>.save_config", "xandikos.store.vdir.VdirStore.__init__.<locals>.save_config"):
-        fi = ctx.func(q)
+    from .common import metadata_savers
+    savers = metadata_savers(ctx)
+    if len(savers) < 2:
+        raise AnalysisError("expected 2 construction sites of FileBasedCollectionMetadata in the stores, found %d" % len(savers))
+    for site, _call, fi in savers:
+        if fi is None:
+            raise AnalysisError("%s: the save callback handed to FileBasedCollectionMetadata cannot be resolved" % site.qualname)
+        q = fi.qualname
         found = False
-        for n in ast.walk(fi.node):
+        for n in walk_local(fi.node):
             if isinstance(n, ast.Call):
                 for a in ast.walk(n):
                     v = ctx.P.try_fold(fi.module, a) if isinstance(a, (ast.Name, ast.Attribute)) else None
                     if v == cf:
                         found = True
-        obs.append(ctx.ob(found, q, fi.where, "saver writes %s" % cf, "metadata saver writes the hidden name",
+        obs.append(ctx.ob(found, site.qualname + " saver", fi.where, "saver writes %s" % cf, "metadata saver writes the hidden name",
                           "metadata saver no longer writes store.config.FILENAME (%r): listers hide a different name" % cf))
     return obs
 
